@@ -172,8 +172,8 @@ theorem addDissem_exact (B : HBlock) (env : Nat → Content) (cap : Nat) (hwf : 
       (addDissem env sd s).2.1 = resOf B D s ∧ (addDissem env sd s).2.2 = stepEvents B D s := by
   have h := addShred_exact B env cap hwf D sd.dis s hg hs
   unfold addDissem
-  simp only [hm, Bool.false_eq_true, if_false]
-  cases hr : addShred env sd.dis s with
+  simp only [hm, Bool.false_eq_true, if_false, addShred_of_ty env sd.dis s hs.ty]
+  cases hr : addShredCore env sd.dis s with
   | mk b r =>
     rw [hr] at h
     simp only at h ⊢
